@@ -30,7 +30,7 @@ ASSUMPTIONS = ['float64; tolerance 1e-11 * gain * max|g|', 'torch native autogra
                'sizes and J bounded']
 TIMEOUT = {'quick': 900, 'thorough': 3300}
 WORKER_BUDGET = {'quick': 600, 'thorough': 2700}
-MIN_HELD = {'quick': 300, 'thorough': 3000}
+MIN_HELD = {'quick': 300, 'thorough': 1500}
 EXT = ('symmetric', 'reflect', 'periodic')
 KF_FWD_EXT = 'forward-backward-omits-adjoint-of-boundary-extension'
 KF_INV_EXT = 'inverse-backward-applies-boundary-extension'
@@ -45,7 +45,7 @@ SIDES = [4, 5, 6, 7, 8, 9, 12]
 def cells(tier, seed):
     rnd = core.rng_for(seed, PROP, tier)
     waves = WAVES_Q if tier == 'quick' else [w for w in refs.all_wavelets() if refs.flen(w) <= 20]
-    reps = 1 if tier == 'quick' else 3
+    reps = 1 if tier == 'quick' else 8
     out = []
     for w in waves:
         for mode in refs.MODES:
